@@ -299,7 +299,8 @@ def setup(rec, reach):
     core.wrap(adapter, "parse_fr3d_output", rec, post=_post_fr3d, pre=_pre_file, label="adapter.parse_fr3d_output")
     core.wrap(adapter, "parse_dssr_output", rec, post=_post_dssr, pre=_pre_dssr, label="adapter.parse_dssr_output")
     for n in ("unify_classification", "parse_unit_id", "_process_interaction_line", "parse_fr3d_output", "parse_dssr_output", "match_dssr_name_to_residue", "match_dssr_lw"):
-        reach.add(getattr(adapter, n), n)
+        if hasattr(adapter, n):  # helpers that are not part of the public interface may be refactored away
+            reach.add(getattr(adapter, n), n)
 
 
 ALPHA = "ctCTwhsWHSnaBPR01359"
@@ -492,15 +493,16 @@ def run_case(case, rec):
             text = make_listing(rng)
         want = ref_listing(text)
         rec.mark_nontrivial(any(w is not None and w[0] != "other" for w in want))
-        with tempfile.NamedTemporaryFile("w", suffix=".txt", delete=False) as f:
+        # the tool's output file has one conventional name: every listing of this worker is written to the SAME path
+        from vmon import emit
+
+        path = emit.scratch_path(".fr3d.txt")
+        with open(path, "w") as f:
             f.write(text)
-            path = f.name
         try:
             adapter.parse_fr3d_output(path)
         except Exception:
             pass
-        finally:
-            os.unlink(path)
         return
     if fam == "adapter-cli":
         _adapter_cli(case, rec)
@@ -510,16 +512,17 @@ def run_case(case, rec):
         rng = random.Random(f"{os.environ.get('VERIF_SEED', '0')}:C19:d:{case['i']}")
         names = [r.full_name for r in s3.residues]
         doc, model = make_dssr(rng, names)
-        with tempfile.NamedTemporaryFile("w", suffix=".json", delete=False) as f:
+        # DSSR writes dssr.json whatever the input: every document of this worker goes to the SAME path
+        from vmon import emit
+
+        path = emit.scratch_path(".dssr.json")
+        with open(path, "w") as f:
             json.dump(doc, f)
-            path = f.name
         try:
             res = adapter.parse_dssr_output(path, s3, model)
             rec.mark_nontrivial(len(res.basePairs) + len(res.stackings) > 0)
         except Exception:
             rec.mark_nontrivial(True)
-        finally:
-            os.unlink(path)
 
 
 def _adapter_cli(case, rec):
